@@ -388,6 +388,17 @@ impl OrdSpecImpl for Version { open spec fn obeys_cmp_spec() -> bool { true } op
             raise AnchorLost('range(): `Parser::map(separated(0.., simple, space1), |bs| intersect_all(&bs))`')
         g.pins.append('range() = Parser::map(separated(0.., simple, space1), |bs| intersect_all(&bs))')
         g.emit('m_conj', g.inj(sl, 'intersect_all', 'm_conj', K.INTERSECT_ALL, make_pub=True))
+        # the closure of the other arm of range(): the empty range is `*`
+        mk = re.search(r'Parser::map\(preceded\(space0, peek\(alt\(\(literal\("\|\|"\), eof\)\)\)\), \|_\| \{', rng_fn)
+        if not mk:
+            raise AnchorLost('range(): the arm for the empty range `Parser::map(preceded(space0, peek(alt((literal("||"), eof)))), |_| {..})`')
+        f = top_fn(RNG, 'range')
+        k = mk.end() - 1
+        e = match_brace(f.verbatim, k)
+        esl = Slice(RNG, f.start + k, f.start + e, 'closure for the empty range in range()')
+        esl.rewrites.append('R5 closure body lifted into fn empty_range_desugar()')
+        g.rec(esl, 'empty_range_desugar', 'm_conj', 'closure', dropped='winnow combinator call around the closure')
+        g.emit('m_conj', 'pub fn empty_range_desugar() -> (r: Vec<BoundSet>)\n    ensures r@.len() == 1, shape_ok_c(Some(r@[0]), any_c()), bs_small(r@[0]),  // @range#empty-is-star\n{\n proof { reveal(cut_cmp); }\n' + esl.text + '\n}\n')
     g.emit('m_conj', '// the comparator list of one alternative')
     g.unit('intersect_all', u_conj)
 
@@ -539,6 +550,7 @@ impl OrdSpecImpl for Version { open spec fn obeys_cmp_spec() -> bool { true } op
 
     # ---------------------------------------------------------------- m_props / m_canary
     g.emit('m_props', P('props.rs'))
+    g.emit('m_props', K.cover_lemmas())
     g.emit('m_canary', P('canaries.rs'))
 
     # ---------------------------------------------------------------- assemble
